@@ -1,8 +1,9 @@
 CONSTANTS
-  NFonts = 4
-  Family = "gen4"
+  NFontsSet = {2, 3, 4}
+  Family = "gen"
   BugSet = {"none"}
   IdfSet = {FALSE}
+  ShapeK = 1
   IgnSet = {{}}
 INIT Init
 NEXT GenNext
